@@ -41,6 +41,8 @@ pub use nucleo_matcher::{chars, Config, Matcher, Utf32Str, Utf32String};
 mod boxcar;
 mod par_sort;
 pub mod pattern;
+#[cfg(nucleo_verif)]
+pub mod verif;
 mod worker;
 
 #[cfg(test)]
@@ -364,6 +366,8 @@ impl<T: Sync + Send + 'static> Nucleo<T> {
     /// were dropped.
     pub fn restart(&mut self, clear_snapshot: bool) {
         self.canceled.store(true, Ordering::Relaxed);
+        #[cfg(nucleo_verif)]
+        verif::yield_point("restart.after_cancel", 0);
         self.items = Arc::new(boxcar::Vec::with_capacity(1024, self.items.columns()));
         self.state = State::Cleared;
         if clear_snapshot {
@@ -382,6 +386,8 @@ impl<T: Sync + Send + 'static> Nucleo<T> {
     /// worker therad to finish. It is recommend to set the timeout to 10ms.
     pub fn tick(&mut self, timeout: u64) -> Status {
         self.should_notify.store(false, atomic::Ordering::Relaxed);
+        #[cfg(nucleo_verif)]
+        verif::yield_point("tick.begin", 0);
         let status = self.pattern.status();
         let canceled = status != pattern::Status::Unchanged || self.state.canceled();
         let mut res = self.tick_inner(timeout, canceled, status);
@@ -399,10 +405,18 @@ impl<T: Sync + Send + 'static> Nucleo<T> {
         let mut inner = if canceled {
             self.pattern.reset_status();
             self.canceled.store(true, atomic::Ordering::Relaxed);
+            #[cfg(nucleo_verif)]
+            verif::yield_point("tick.before_lock", 0);
             self.worker.lock_arc()
         } else {
+            #[cfg(nucleo_verif)]
+            verif::yield_point("tick.before_try_lock", timeout);
             let Some(worker) = self.worker.try_lock_arc_for(Duration::from_millis(timeout)) else {
+                #[cfg(nucleo_verif)]
+                verif::yield_point("tick.try_lock_failed", 0);
                 self.should_notify.store(true, Ordering::Release);
+                #[cfg(nucleo_verif)]
+                verif::yield_point("tick.after_rearm", 0);
                 return Status {
                     changed: false,
                     running: true,
@@ -430,6 +444,8 @@ impl<T: Sync + Send + 'static> Nucleo<T> {
             if cleared {
                 inner.items = self.items.clone();
             }
+            #[cfg(nucleo_verif)]
+            verif::yield_point("tick.before_spawn", 0);
             self.pool
                 .spawn(move || unsafe { inner.run(status, cleared) })
         }
